@@ -93,6 +93,7 @@ def main(argv=None) -> int:
     reported = 0
     for sig, v in sorted(fresh.items()):
         if reported >= 8:
+            print("  (+%d more violation classes not written out: %s)" % (len(fresh) - reported, ", ".join(sorted(fresh)[reported:][:60])))
             break
         if hasattr(mod, "minimise"):
             try:
